@@ -45,6 +45,7 @@ pub struct GeneratorState<'a> {
     pub out: AssemblyCode,                       // R5: functions_code[current_function]
     pub callee: Option<AssemblyCode>,            // R5: functions_code.get(f)
 }
+#[verifier::external_body] pub fn string_is(s: &String, t: &str) -> (r: bool) ensures r == (s@ == t@) { s == t }      // R15: String == str
 #[verifier::external_body] pub fn opt_ref(o: &Option<AssemblyCode>) -> (r: Option<&AssemblyCode>) ensures o is None ==> r is None, o is Some ==> r is Some && *r->Some_0 == o->Some_0 { o.as_ref() }
 // renaming a clone is renaming the original
 pub proof fn lemma_renamed_of_clone(a: AsmLine, b: AsmLine, d: AsmLine, n: u32)
@@ -58,6 +59,8 @@ HEADER = """pub(crate) fn push_code(&mut self, f: &str, pos: usize) -> (res: Res
         ensures
             final(self).compiler_state == old(self).compiler_state,
             final(self).inline_label_counter == old(self).inline_label_counter + 1, //@ C13,C14:inline-expansion-takes-a-fresh-counter
+            // the code of the function being generated is incomplete: copying it into itself leaves branches to labels that are never defined (a panic in check_branches)
+            (old(self).current_function is Some && old(self).current_function->Some_0@ == f@) ==> res is Err, //@ C16,C14:inline-expansion-of-the-function-being-generated-is-rejected
             (res is Ok && old(self).current_function is Some) ==> old(self).callee is Some && ({
                 let n = (old(self).inline_label_counter + 1) as u32; let body = old(self).callee->Some_0.code@; let c0 = old(self).out.code@; let c1 = final(self).out.code@;
                 c1.len() == c0.len() + body.len() + 1 && c1.subrange(0, c0.len() as int) =~= c0
@@ -79,6 +82,7 @@ def build(repo):
         raise Undecided("generate_return no longer emits `JMP .endof` for an inline function: the label push_code appends would not be the one returns name")
     pc = ga.fn("push_code", within="GeneratorState")
     cuts.append(pc)
+    pc.sub(r"\b(\w+) == f\b", r"string_is(\1, f)", "R15 String == &str -> shim", expect=(0, 1))
     pc.sub(r"self\.functions_code\.get\(f\)", "opt_ref(&self.callee)", "R5 functions_code.get(f) -> the callee's code object", expect=1)
     pc.sub(r"\bc\.clone\(\)", "clone_code(c)", "R-clone (A-clone shim)", expect=1)
     pc.sub(r"^\s*let code: &mut AssemblyCode = self\.functions_code\.get_mut\(fx\)\.unwrap\(\);\n", "", "R5 functions_code.get_mut(current).unwrap() -> self.out", expect=1)
